@@ -56,7 +56,13 @@ static bool g_verbose = false;
 static int g_forceNumGrad = -1, g_forceNumJac = -1;    // debugging overrides (--numgrad 0|1, --numjac 0|1)
 static long g_throws = 0;          // SimTK::Exception::OptimizerFailed only (IPOPT uses C++ exceptions internally for control flow)
 static char g_lastThrow[240] = "";
-extern "C" void __cxa_throw(void* obj, std::type_info* ti, void (*dtor)(void*)) {
+#if defined(__clang__)
+#define VH_TI_ARG std::type_info*
+#else
+#define VH_TI_ARG void*          /* gcc's built-in declaration of __cxa_throw takes void* */
+#endif
+extern "C" void __cxa_throw(void* obj, VH_TI_ARG tiArg, void (*dtor)(void*)) {
+    std::type_info* ti = (std::type_info*)tiArg;
     typedef void (*Fn)(void*, std::type_info*, void (*)(void*));
     static Fn real = (Fn)dlsym(RTLD_NEXT, "__cxa_throw");
     if (ti && *ti == typeid(SimTK::Exception::OptimizerFailed)) {
@@ -491,8 +497,8 @@ static void genProblem(Rng& r, const Sys& S, Prob& P, long idx, bool unlistedTai
         }
     }
     // ---- bounds
-    if (r.coin(0.4)) {
-        int n = r.integer(1, 3);
+    if (r.coin(0.5)) {
+        int n = r.integer(1, 4);   // often several mobilizers carry ranges at once (per-mobilizer bookkeeping in the Assembler)
         for (int j = 0; j < n; ++j) { int k = r.pick(withQ); BoundD b; b.node = k; b.qi = r.integer(0, S.nq(k) - 1); b.lo = -Infinity; b.hi = Infinity; P.bounds.push_back(b); }
     }
     if (g_forceNumGrad >= 0) P.numGrad = g_forceNumGrad != 0;
@@ -546,10 +552,52 @@ static double projectedGradientGeneric(const std::function<FnOut(const Vector&)>
     return w;
 }
 static double projectedGradient(const Sys& S, const Prob& P, const State& tw, const Vector& q, double t) {
-    std::vector<int> F; for (int i = 0; i < q.size(); ++i) if (P.usedQ[i] && !P.inertQ[i] && !P.fixedQ[i] && !P.prescQ[i]) F.push_back(i);
-    std::vector<double> lo(F.size(), -Infinity), hi(F.size(), Infinity);
-    for (auto& b : P.bounds) { int ix = S.q0(b.node) + b.qi; for (size_t k = 0; k < F.size(); ++k) if (F[k] == ix) { lo[k] = b.lo; hi[k] = b.hi; } }
-    return projectedGradientGeneric([&](const Vector& x) { EvalOut e = evaluate(S, P, tw, x, t, nullptr); return FnOut{e.goal, e.errs}; }, q, F, lo, hi);
+    // Coordinates w of the feasible directions (DESIGN section 8 nos. 4, 8, 10): the identity on every free q, except
+    // that the three Euler angles of a LineOrientation/FreeLine mobilizer (two mobilities) are replaced by an
+    // orthonormal basis of range(N) -- the gradients the Assembler works with are generalized forces mapped to q and
+    // have no component outside it. A mobilizer of that kind with a fixed, prescribed or range-restricted angle keeps
+    // the plain coordinates (spin angle left out, as before).
+    const int nq = q.size();
+    std::vector<char> special(nq, 0);
+    struct Col { std::vector<std::pair<int, double>> e; double lo, hi; };
+    std::vector<Col> B;
+    {
+        State twR = tw; twR.updQ() = freshQ(q); S.m.sys.realize(twR, Stage::Position);
+        for (int kk = 0; kk < S.nNodes(); ++kk) {
+            if (S.type(kk) != MT_LineOrientation && S.type(kk) != MT_FreeLine) continue;
+            const int a0 = S.q0(kk); bool plain = false;
+            for (int i = 0; i < 3; ++i) if (!P.usedQ[a0 + i] || P.fixedQ[a0 + i] || P.prescQ[a0 + i]) plain = true;
+            for (auto& b : P.bounds) { int ix = S.q0(b.node) + b.qi; if (ix >= a0 && ix < a0 + 3) plain = true; }
+            if (plain) continue;
+            const int u0 = (int)S.m.bodies[kk].getFirstUIndex(twR);
+            double col[2][3];
+            for (int j = 0; j < 2; ++j) {
+                Vector uu(twR.getNU()); uu.setToZero(); uu[u0 + j] = 1; Vector dq;
+                S.m.matter.multiplyByN(twR, false, uu, dq);
+                for (int i = 0; i < 3; ++i) col[j][i] = dq[a0 + i];
+            }
+            auto nrm = [](double* v) { double n = std::sqrt(v[0] * v[0] + v[1] * v[1] + v[2] * v[2]); if (n > 0) for (int i = 0; i < 3; ++i) v[i] /= n; return n; };
+            if (!(nrm(col[0]) > 1e-8)) continue;
+            double dt = col[0][0] * col[1][0] + col[0][1] * col[1][1] + col[0][2] * col[1][2];
+            for (int i = 0; i < 3; ++i) col[1][i] -= dt * col[0][i];
+            if (!(nrm(col[1]) > 1e-8)) continue;
+            for (int i = 0; i < 3; ++i) special[a0 + i] = 1;
+            for (int j = 0; j < 2; ++j) B.push_back(Col{{{a0, col[j][0]}, {a0 + 1, col[j][1]}, {a0 + 2, col[j][2]}}, -Infinity, Infinity});
+        }
+    }
+    for (int i = 0; i < nq; ++i) {
+        if (special[i] || !(P.usedQ[i] && !P.inertQ[i] && !P.fixedQ[i] && !P.prescQ[i])) continue;
+        Col cI{{{i, 1.0}}, -Infinity, Infinity};
+        for (auto& b : P.bounds) { int ix = S.q0(b.node) + b.qi; if (ix == i) { cI.lo = b.lo - q[i]; cI.hi = b.hi - q[i]; } }
+        B.push_back(cI);
+    }
+    const int nw = (int)B.size();
+    std::vector<int> F; std::vector<double> lo, hi;
+    for (int k = 0; k < nw; ++k) { F.push_back(k); lo.push_back(B[k].lo); hi.push_back(B[k].hi); }
+    Vector w0(nw); w0.setToZero();
+    return projectedGradientGeneric([&](const Vector& w) {
+        Vector x = freshQ(q); for (int k = 0; k < nw; ++k) if (w[k] != 0) for (auto& e : B[k].e) x[e.first] += w[k] * e.second;
+        EvalOut e = evaluate(S, P, tw, x, t, nullptr); return FnOut{e.goal, e.errs}; }, w0, F, lo, hi);
 }
 
 // Judge one returned assemble()/track() call. Returns false when a violated lock/prescription makes
@@ -730,7 +778,7 @@ static void caseAssembler(Ctx& c, long idx, Rng& r, bool unlistedTail) {
     // ---- bounds now that start and target are known
     for (auto& b : P.bounds) {
         int ix = S.q0(b.node) + b.qi; double a = std::min(qRef[ix], R.qStartE[ix]), z = std::max(qRef[ix], R.qStartE[ix]);
-        int kind = r.integer(0, 4);
+        int kind = r.integer(0, 5); if (kind == 5) kind = 3;   // active ranges twice as likely as each other kind
         if (kind == 0) { b.lo = a - r.uni(0.01, 1); b.hi = z + r.uni(0.01, 1); }
         else if (kind == 1) { b.lo = a - r.uni(0.01, 1); b.hi = Infinity; }
         else if (kind == 2) { b.lo = -Infinity; b.hi = z + r.uni(0.01, 1); }
